@@ -66,6 +66,11 @@ def expr(draw):
     elif p == "subvolume":
         e["k"] = [draw(st.sampled_from([None, 1, 2])) for _ in range(3)]
         e["open"] = [draw(st.booleans()) for _ in range(6)]
+    if p in ("line_get", "line_slice", "ord_get", "ord_neg", "ord_out", "ord_slice", "attr"):
+        # the integer type of the subscripts: a Python int, or what np.argmax / indexing an array hands over
+        it = draw(st.sampled_from(["int", "int", "int", "np64", "np32", "intp"]))
+        if it != "int":
+            e["it"] = it
     return e
 
 
@@ -112,6 +117,11 @@ def build_expr(e, S, f, g, gpath):
     import segyio
     import seismic_zfp
     p, u = e["p"], e["u"]
+    import builtins
+    _t = {"np64": np.int64, "np32": np.int32, "intp": np.intp}.get(e.get("it"), builtins.int)
+
+    def int(v, _t=_t):      # (every subscript of this expression is built through int(...))
+        return _t(builtins.int(v))
     il, xl = list(S.ilines), list(S.xlines)
     n_il, n_xl, ns, ntr = len(il), len(xl), len(S.samples), S.n
     if p in ("line_get", "line_get_absent", "line_slice", "line_iter"):
@@ -182,7 +192,7 @@ def build_expr(e, S, f, g, gpath):
     if p == "cube":
         return "tools.cube", ("cube", lambda: segyio.tools.cube(S.path), lambda: seismic_zfp.tools.cube(gpath)), "cube"
     if p == "subvolume":
-        axes = [np.array(il), np.array(xl), np.array(S.samples).astype(int)]
+        axes = [np.array(il), np.array(xl), np.array(S.samples).astype(np.int64)]
         idx, sl = [], []
         for k in range(3):
             axv = axes[k]
